@@ -176,3 +176,31 @@ def register(PROPS, COMPONENTS):
                    "free lock or times out, at the scheduler's choice; real time is not modelled.",
         trusted_base=LF_TRUST, assumptions=LF_ASSUME, partial=[],
     )
+    PROPS["C15"] = dict(
+        lean_files=["ConcVerif/Props/C15.lean"], components=["lockfam"], stage="B",
+        level_text="Lean 4 theorems over the wrapper model: for every concurrent execution the whole-object operations (load, store, "
+                   "operator=, operator T, modify, read, exchange, compare_exchange; writes through exclusive handles as stores), taken "
+                   "in the order of their linearisation points (the closing release of their single mutex bracket, which lies between "
+                   "call and return), replay through the sequential single-register specification with exactly the results the callers "
+                   "received and end in the committed value (linearizability, proved as an inductive invariant using mutual exclusion); "
+                   "a load inside a bracket returns the committed value (never a partially written one); exchange / compare_exchange "
+                   "specification lemmas; the history is append-only (real-time and program order)." + LF_TIE +
+                   " The harness additionally compares every result with the register semantics of the values read/written in the "
+                   "same bracket (python oracle) and checks two-word payload reads for tearing.",
+        level_note="Trusted base as C01. The per-bracket check wResult (accesses amount to the claimed operation) is part of the model "
+                   "and is proved sound w.r.t. the register specification (C15_bracket_is_register_op). With locking disabled "
+                   "(guarded_opt(false)) nothing is claimed.",
+        trusted_base=LF_TRUST, assumptions=LF_ASSUME, partial=[],
+    )
+    PROPS["C20"] = dict(
+        lean_files=["ConcVerif/Props/C20_lock.lean"], components=["lockfam"], stage="B",
+        level_text="Lean 4 theorems, per wrapper family, over models in which user code may throw at any point inside an operation "
+                   "(`uth` events accepted in every state of a bracket, i.e. every choice of the throwing invocation and every "
+                   "interleaving): the lock taken by the operation is released before the exception reaches the caller, the operation "
+                   "has not written the wrapped object (not half-modified), all mutual-exclusion / deadlock-freedom theorems hold on "
+                   "traces containing throws (the wrapper stays usable)." + LF_TIE,
+        level_note="Trusted base as C01; the fault injector makes the k-th user-code invocation (copy, assignment, comparison, functor) "
+                   "throw. Parts for lr_guarded, cow_guarded, deferred_guarded, DelayedDestructor and SearchableObjectHolder are "
+                   "added by their components.",
+        trusted_base=LF_TRUST, assumptions=LF_ASSUME, partial=[],
+    )
